@@ -231,3 +231,29 @@ def from_path_chars(i: int, j: int, k: int) -> bool:
     if str(back) != p:
         return fail("typed-but-path-differs-from-input")
     return True
+
+
+# paths of different types whose FIELDS are equal (the extension is a search symbol), next to ordinary ones
+SEQ = envstr("VF_SEQ", "/r/H/A/x/v1/x_v1.*;/r/H/A/x/v1/O/x_v1.*;/r/H/A/x/v1/x_v1.m;/r/H/A/x/v1/O/x_v1.g;/r/H/S/q1/v1/q1_v1.>;/r/H/S/q1/v1/E/q1_v1.>;/r/H/A/x/v1;/r/H/S/q1/v1/E/q1_o_v1.*").split(";")
+
+
+def _owns(p: str) -> bool:
+    sid = Sid(path=p, config=CONFIG)
+    if not sid:
+        return True
+    back = sid.path(CONFIG)
+    return back is not None and str(back) == p
+
+
+def from_path_seq(i: int, j: int) -> bool:
+    """
+    Two paths resolved one after the other in one process (spil's caches on): each typed result still owns its path.
+    pre: 0 <= i < len(SEQ) and 0 <= j < len(SEQ)
+    post: _
+    """
+    env.clear_caches()
+    if not _owns(SEQ[i]):
+        return fail("typed-but-path-differs-from-input")
+    if not _owns(SEQ[j]):
+        return fail("typed-but-path-differs-from-input-after-another-path")
+    return True
